@@ -15,11 +15,10 @@
 namespace c12 {
 using Vec = std::vector<double>;
 
-// all grids with nk knots: first knot x0, spacings from {0.5,1,2}; uniform ones first
-inline std::vector<Vec> grids(int nk, double x0) {
-  static const double S[3] = {1.0, 0.5, 2.0};
+// all grids with nk knots: first knot x0, spacings from the given alphabet (default {1,0.5,2}); uniform ones first
+inline std::vector<Vec> grids(int nk, double x0, const Vec &S = Vec{1.0, 0.5, 2.0}) {
   std::vector<Vec> uni, non;
-  std::vector<int> idx(nk - 1, 0), radix(nk - 1, 3);
+  std::vector<int> idx(nk - 1, 0), radix(nk - 1, (int)S.size());
   do {
     Vec g{x0};
     bool u = true;
@@ -33,12 +32,11 @@ inline std::vector<Vec> grids(int nk, double x0) {
   return uni;
 }
 
-// all ordinate vectors over {-1,0,1,2}^n (periodic: y[n-1] = y[0])
-inline std::vector<Vec> ordinates(int n, bool periodic) {
-  static const double A[4] = {0.0, 1.0, -1.0, 2.0};
+// all ordinate vectors over the alphabet (default {0,1,-1,2}) of length n (periodic: y[n-1] = y[0])
+inline std::vector<Vec> ordinates(int n, bool periodic, const Vec &A = Vec{0.0, 1.0, -1.0, 2.0}) {
   int free_n = periodic ? n - 1 : n;
   std::vector<Vec> out;
-  std::vector<int> idx(free_n, 0), radix(free_n, 4);
+  std::vector<int> idx(free_n, 0), radix(free_n, (int)A.size());
   do {
     Vec y(n);
     for (int k = 0; k < free_n; k++) y[k] = A[idx[k]];
